@@ -90,4 +90,9 @@ func TestMkReplays(t *testing.T) {
 	e13.Summary = model.Texts("foo � bar")
 	write("C01", "fixed_F13_summary_cut_at_replacement_char", "entry summary truncated at U+FFFD", caseC01{Doc: model.Doc{Records: []model.Record{{Date: date(2020, 1, 1), Entries: []model.Entry{e13}}}}, Layout: model.Layout{FinalEOL: true}})
 	write("C09", "fixed_F13_summary_cut_at_replacement_char", "entry summary truncated at U+FFFD", caseC09{Doc: model.Doc{Records: []model.Record{{Date: date(2020, 1, 1), Entries: []model.Entry{e13}}}}, Layout: model.Layout{FinalEOL: true}})
+	// F15: stop --date 0000-01-01 computed the day before although no fallback applies
+	open15 := model.Entry{Kind: model.KOpen, Start: model.Time{Off: 480, Lit: "8:00"}, DashL: " ", DashR: " ", QMarks: 1, Summary: model.Texts("")}
+	doc15 := model.Doc{Records: []model.Record{{Date: date(0, 1, 1), Entries: []model.Entry{open15}}}}
+	stop15 := model.Cmd{Kind: "stop", DateSel: "explicit", Date: date(0, 1, 1), Time: &model.Time{Off: 540, Lit: "9:00"}}
+	write("C04", "fixed_F15_stop_at_first_day", "stop --date 0000-01-01 panicked", caseC04{Doc: doc15, Layout: model.Layout{Indent: []string{"\t"}, FinalEOL: true}, Env: env6, Steps: []stepC04{{Cmd: stop15}}})
 }
